@@ -415,13 +415,15 @@ def rng_problems(got):
 
 
 def classify_rng(probs):
-    """known class F26d: the shipped schema lags behind toXML (attributes / severities added later, hash facet)"""
-    lag = re.compile(r"attribute (origfile|remark|guideline|classification) not in the schema|severity=b'(debug|internal|)' not among|hash=1 violates")
-    if all(lag.search(p) for p in probs):
-        return "xml-rng-schema-lag"
-    prem = re.compile(r"id is not an NCName|severity=b'' not among")     # ids are NCNames, Severity::none is never reported
-    if all(prem.search(p) for p in probs):
+    """premise: ids are NCNames and Severity::none is never reported; F26d (fixed by a735e94, the entry suppresses nothing):
+    attributes / severities toXML writes but the schema does not know"""
+    prem = re.compile(r"id is not an NCName|severity=b'' not among")
+    rest = [p for p in probs if not prem.search(p)]
+    if not rest:
         return "premise:id-not-ncname-or-severity-none"
+    lag = re.compile(r"attribute (origfile|remark|guideline|classification) not in the schema|severity=b'(debug|internal)' not among|hash=1 violates")
+    if all(lag.search(p) for p in rest):
+        return "xml-rng-schema-lag"
     return None
 
 
